@@ -8,10 +8,6 @@ impl Lang {
         ensures word@.len() >= 1 ==> 1 <= r <= word@.len(), word@.len() == 0 ==> r == 0,
     { unimplemented!() }
 }
-pub open spec fn sp_punct(ch: char) -> bool {
-    ch == '&' || ch == '(' || ch == ')' || ch == ',' || ch == ':' || ch == ';' || ch == '.' || ch == '!' || ch == '?'
-    || ch == '-' || ch == '‑' || ch == '‒' || ch == '–' || ch == '—' || ch == '…' || ch == '‼' || ch == '⁇' || ch == '⁈' || ch == '⁉'
-}
 // @item rust/core/src/lang/char_class.rs :: trait CharPattern
 pub trait CharPattern {
     spec fn sp_matches(&self, ch: char, lang: &Lang) -> Option<bool>;
@@ -153,9 +149,12 @@ impl WordShape {
             ret.slice.0 >= old(self).slice.0, ret.slice.1 <= old(self).slice.1, ret.slice.0 <= ret.slice.1,
             ret.offset == old(self).offset, ret.stem == old(self).stem, ret.pos == old(self).pos,
             ret.fin == (old(self).fin || ret.slice.1 < old(self).slice.1),
-            // what remains starts and ends with a character that does not match the pattern
+            // what was stripped matched the pattern; what remains starts and ends with a character that does not
+            forall|t: int| old(self).slice.0 <= t < ret.slice.0 ==> pm(pattern, lang, #[trigger] chars@[t]),
+            forall|t: int| ret.slice.1 <= t < old(self).slice.1 ==> pm(pattern, lang, #[trigger] chars@[t]),
             ret.slice.0 < ret.slice.1 ==> !pm(pattern, lang, chars@[ret.slice.0 as int]) && !pm(pattern, lang, chars@[ret.slice.1 - 1]),
     {
+        let ghost all_chars = chars@;
         let chars = &chars[self.slice.0..self.slice.1];
         let ghost a = old(self).slice.0 as int;
         let ghost b = old(self).slice.1 as int;
@@ -164,7 +163,9 @@ impl WordShape {
         let mut __acc0: usize = 0;
         loop
             invariant __acc0 <= __src0@.len(), __src0@ == chars@, chars@.len() == b - a,
+                forall|t: int| 0 <= t < __acc0 ==> pm(pattern, lang, #[trigger] __src0@[t]),
             ensures __acc0 <= __src0@.len(), __acc0 < __src0@.len() ==> !pm(pattern, lang, __src0@[__acc0 as int]),
+                forall|t: int| 0 <= t < __acc0 ==> pm(pattern, lang, #[trigger] __src0@[t]),
             decreases __src0@.len() - __acc0,
         {
             if __acc0 >= __src0.len() {
@@ -182,7 +183,9 @@ impl WordShape {
         let mut __acc1: usize = 0;
         loop
             invariant __acc1 <= __cap1, __acc1 <= __src1@.len(), __src1@ == chars@, chars@.len() == b - a, __cap1 == chars@.len() - left,
+                forall|t: int| 0 <= t < __acc1 ==> pm(pattern, lang, #[trigger] __src1@[__src1@.len() - 1 - t]),
             ensures __acc1 <= __cap1, __acc1 <= __src1@.len(), __acc1 < __cap1 ==> !pm(pattern, lang, __src1@[__src1@.len() - 1 - __acc1]),
+                forall|t: int| 0 <= t < __acc1 ==> pm(pattern, lang, #[trigger] __src1@[__src1@.len() - 1 - t]),
             decreases __src1@.len() - __acc1,
         {
             if __acc1 >= __cap1 || __acc1 >= __src1.len() {
@@ -195,6 +198,14 @@ impl WordShape {
             __acc1 += 1;
         }
         let right = __acc1;
+        proof {
+            let full = all_chars;
+            assert(chars@ == full.subrange(a, b));
+            assert forall|t: int| a <= t < a + left implies pm(pattern, lang, #[trigger] full[t]) by { assert(chars@[t - a] == full[t]); }
+            assert forall|t: int| b - right <= t < b implies pm(pattern, lang, #[trigger] full[t]) by { assert(chars@[chars@.len() - 1 - (b - 1 - t)] == full[t]); }
+            if left < b - a { assert(chars@[left as int] == full[a + left]); }
+            if right < b - a - left { assert(chars@[chars@.len() - 1 - right] == full[b - 1 - right]); }
+        }
         self.slice.0 += left;
         self.slice.1 -= right;
         self.fin = self.fin || right != 0;
@@ -354,14 +365,65 @@ pub open spec fn ws_nonempty(ws: Seq<WordShape>) -> bool { forall|k: int| 0 <= k
 pub open spec fn ws_numbered(ws: Seq<WordShape>) -> bool { forall|k: int| 0 <= k < ws.len() ==> (#[trigger] ws[k]).offset == k }
 pub open spec fn ws_stems(ws: Seq<WordShape>) -> bool { forall|k: int| 0 <= k < ws.len() ==> 1 <= (#[trigger] ws[k]).stem <= ws[k].slice.1 - ws[k].slice.0 }
 pub open spec fn same_slices(a: Seq<WordShape>, b: Seq<WordShape>) -> bool { a.len() == b.len() && forall|k: int| 0 <= k < a.len() ==> (#[trigger] a[k]).slice == b[k].slice && a[k].fin == b[k].fin }
+// ---- C15 (characters): no separator inside a word, edges alphanumeric, every alphanumeric character covered, fin flags
+pub open spec fn split_pat() -> Seq<CharClass> { seq![Whitespace, Control, Punctuation] }
+pub open spec fn strip_pat() -> Seq<CharClass> { seq![NotAlphaNum] }
+proof fn lemma_pm_split(pattern: &[CharClass], lang: &Lang, c: char)
+    requires pattern@ == split_pat()
+    ensures pm(pattern, lang, c) == is_sep(c)
+{
+    let ps = pattern@;
+    assert(ps[0] == Whitespace && ps[1] == Control && ps[2] == Punctuation);
+    if is_sep(c) {
+        if sp_ws(c) { assert(ps[0].sp_matches(c, lang) == Some(true)); } else if sp_ctrl(c) { assert(ps[1].sp_matches(c, lang) == Some(true)); } else { assert(ps[2].sp_matches(c, lang) == Some(true)); }
+    }
+}
+proof fn lemma_pm_strip(pattern: &[CharClass], lang: &Lang, c: char)
+    requires pattern@ == strip_pat()
+    ensures pm(pattern, lang, c) == !sp_alnum(c)
+{
+    let ps = pattern@;
+    assert(ps[0] == NotAlphaNum);
+    if !sp_alnum(c) { assert(ps[0].sp_matches(c, lang) == Some(true)); }
+}
+pub open spec fn covered(ws: Seq<WordShape>, t: int) -> bool { exists|k: int| 0 <= k < ws.len() && (#[trigger] ws[k]).slice.0 <= t < ws[k].slice.1 }
+pub open spec fn ws_no_sep(ws: Seq<WordShape>, chars: Seq<char>) -> bool { forall|k: int, t: int| 0 <= k < ws.len() && (#[trigger] ws[k]).slice.0 <= t < ws[k].slice.1 ==> !is_sep(#[trigger] chars[t]) }
+pub open spec fn ws_edges(ws: Seq<WordShape>, chars: Seq<char>) -> bool { forall|k: int| 0 <= k < ws.len() ==> sp_alnum(chars[(#[trigger] ws[k]).slice.0 as int]) && sp_alnum(chars[ws[k].slice.1 - 1]) }
+pub open spec fn ws_cover(ws: Seq<WordShape>, chars: Seq<char>) -> bool { forall|t: int| 0 <= t < chars.len() && sp_alnum(#[trigger] chars[t]) ==> covered(ws, t) }
+// record: every word finished; query: a word is unfinished exactly when it ends the text
+pub open spec fn ws_fin_record(ws: Seq<WordShape>) -> bool { forall|k: int| 0 <= k < ws.len() ==> (#[trigger] ws[k]).fin }
+pub open spec fn ws_fin_query(ws: Seq<WordShape>, n: int) -> bool { forall|k: int| 0 <= k < ws.len() ==> ((#[trigger] ws[k]).fin <==> ws[k].slice.1 < n) }
+pub open spec fn same_class(a: Seq<char>, b: Seq<char>) -> bool { a.len() == b.len() && forall|t: int| 0 <= t < a.len() ==> sp_alnum(#[trigger] a[t]) == sp_alnum(b[t]) && is_sep(a[t]) == is_sep(b[t]) }
+pub open spec fn gap_sep(ws: Seq<WordShape>, chars: Seq<char>) -> bool { forall|t: int| 0 <= t < chars.len() && !covered(ws, t) ==> is_sep(#[trigger] chars[t]) }
+proof fn lemma_same_slices(a: Seq<WordShape>, b: Seq<WordShape>, chars: Seq<char>, n: int)
+    requires same_slices(a, b)
+    ensures ws_in(b, n) ==> ws_in(a, n), ws_ordered(b) ==> ws_ordered(a), ws_nonempty(b) ==> ws_nonempty(a),
+        ws_no_sep(b, chars) ==> ws_no_sep(a, chars), ws_edges(b, chars) ==> ws_edges(a, chars), ws_cover(b, chars) ==> ws_cover(a, chars), gap_sep(b, chars) ==> gap_sep(a, chars),
+        ws_fin_record(b) ==> ws_fin_record(a), ws_fin_query(b, n) ==> ws_fin_query(a, n),
+{
+    assert forall|t: int| covered(b, t) implies covered(a, t) by { let k = choose|k: int| 0 <= k < b.len() && (#[trigger] b[k]).slice.0 <= t < b[k].slice.1; assert(a[k].slice == b[k].slice); }
+    assert forall|t: int| covered(a, t) implies covered(b, t) by { let k = choose|k: int| 0 <= k < a.len() && (#[trigger] a[k]).slice.0 <= t < a[k].slice.1; assert(a[k].slice == b[k].slice); }
+    if ws_no_sep(b, chars) { assert forall|k: int, t: int| 0 <= k < a.len() && (#[trigger] a[k]).slice.0 <= t < a[k].slice.1 implies !is_sep(#[trigger] chars[t]) by { assert(a[k].slice == b[k].slice); } }
+    if ws_edges(b, chars) { assert forall|k: int| 0 <= k < a.len() implies sp_alnum(chars[(#[trigger] a[k]).slice.0 as int]) && sp_alnum(chars[a[k].slice.1 - 1]) by { assert(a[k].slice == b[k].slice); } }
+    if ws_ordered(b) { assert forall|k: int, m: int| 0 <= k < m < a.len() implies (#[trigger] a[k]).slice.1 <= (#[trigger] a[m]).slice.0 by { assert(a[k].slice == b[k].slice); assert(a[m].slice == b[m].slice); } }
+}
+proof fn lemma_same_class(ws: Seq<WordShape>, a: Seq<char>, b: Seq<char>)
+    requires same_class(a, b), ws_in(ws, b.len() as int), ws_nonempty(ws)
+    ensures ws_no_sep(ws, b) ==> ws_no_sep(ws, a), ws_edges(ws, b) ==> ws_edges(ws, a), ws_cover(ws, b) ==> ws_cover(ws, a),
+{
+    if ws_no_sep(ws, b) { assert forall|k: int, t: int| 0 <= k < ws.len() && (#[trigger] ws[k]).slice.0 <= t < ws[k].slice.1 implies !is_sep(#[trigger] a[t]) by { assert(!is_sep(b[t])); } }
+    if ws_edges(ws, b) { assert forall|k: int| 0 <= k < ws.len() implies sp_alnum(a[(#[trigger] ws[k]).slice.0 as int]) && sp_alnum(a[ws[k].slice.1 - 1]) by { assert(sp_alnum(b[ws[k].slice.0 as int])); } }
+    if ws_cover(ws, b) { assert forall|t: int| 0 <= t < a.len() && sp_alnum(#[trigger] a[t]) implies covered(ws, t) by { assert(sp_alnum(b[t])); } }
+}
 impl TextOwn {
+    pub open spec fn chars_ok(&self) -> bool { ws_no_sep(self.words@, self.chars@) && ws_edges(self.words@, self.chars@) && ws_cover(self.words@, self.chars@) }
     // source and normalised text are position-aligned
     pub open spec fn aligned(&self) -> bool { self.source@.len() == self.chars@.len() }
     pub open spec fn struct_ok(&self) -> bool {
         self.aligned() && ws_in(self.words@, self.chars@.len() as int) && ws_ordered(self.words@) && ws_nonempty(self.words@) && ws_numbered(self.words@)
     }
     // C15 (structure): what tokenize_query / tokenize_record return
-    pub open spec fn wf(&self) -> bool { self.struct_ok() && self.classes@.len() == self.chars@.len() && ws_stems(self.words@) }
+    pub open spec fn wf(&self) -> bool { self.struct_ok() && self.classes@.len() == self.chars@.len() && ws_stems(self.words@) && self.chars_ok() }
 }
 // a filtered sequence is a sub-sequence: order-like properties survive Vec::retain
 proof fn lemma_filter_words(ws: Seq<WordShape>, keep: spec_fn(WordShape) -> bool, n: int)
@@ -370,6 +432,7 @@ proof fn lemma_filter_words(ws: Seq<WordShape>, keep: spec_fn(WordShape) -> bool
         forall|k: int| 0 <= k < ws.filter(keep).len() ==> keep(#[trigger] ws.filter(keep)[k]),
         forall|k: int| 0 <= k < ws.filter(keep).len() ==> ws.contains(#[trigger] ws.filter(keep)[k]),
         ws.len() > 0 && ws.filter(keep).len() > 0 ==> ws.filter(keep).last().slice.1 <= ws.last().slice.1,
+        forall|i: int| 0 <= i < ws.len() && keep(#[trigger] ws[i]) ==> ws.filter(keep).contains(ws[i]),
     decreases ws.len()
 {
     reveal(Seq::filter);
@@ -379,6 +442,15 @@ proof fn lemma_filter_words(ws: Seq<WordShape>, keep: spec_fn(WordShape) -> bool
         let f = p.filter(keep);
         assert forall|k: int| 0 <= k < f.len() implies ws.contains(#[trigger] f[k]) by {
             assert(p.contains(f[k])); let i = choose|i: int| 0 <= i < p.len() && p[i] == f[k]; assert(ws[i] == f[k]);
+        }
+        assert forall|i: int| 0 <= i < ws.len() && keep(#[trigger] ws[i]) implies ws.filter(keep).contains(ws[i]) by {
+            if i < p.len() {
+                assert(p[i] == ws[i]); assert(f.contains(ws[i]));
+                let j = choose|j: int| 0 <= j < f.len() && f[j] == ws[i];
+                if keep(ws.last()) { assert(f.push(ws.last())[j] == ws[i]); }
+            } else {
+                assert(f.push(ws.last())[f.len() as int] == ws[i]);
+            }
         }
         if keep(ws.last()) {
             let r = f.push(ws.last());
@@ -396,7 +468,7 @@ proof fn lemma_filter_words(ws: Seq<WordShape>, keep: spec_fn(WordShape) -> bool
 impl TextOwn {
     pub fn from_vec(source: Vec<char>) -> (ret: TextOwn)
         ensures ret.source@ == source@, ret.chars@ == source@, ret.classes@.len() == source@.len(), ret.words@.len() == 1,
-            ret.words@[0].slice == (0usize, source@.len() as usize), ret.words@[0].offset == 0, ret.words@[0].fin,
+            ret.words@[0].slice.0 == 0 && ret.words@[0].slice.1 == source@.len(), ret.words@[0].offset == 0, ret.words@[0].fin,
     {
         let len = source.len();
         let chars = source.clone();
@@ -405,7 +477,7 @@ impl TextOwn {
     }
     pub fn from_str(source: &str) -> (ret: TextOwn)
         ensures ret.source@ == source@, ret.chars@ == source@, ret.classes@.len() == source@.len(), ret.words@.len() == 1,
-            ret.words@[0].slice == (0usize, source@.len() as usize), ret.words@[0].offset == 0, ret.words@[0].fin,
+            ret.words@[0].slice.0 == 0 && ret.words@[0].slice.1 == source@.len(), ret.words@[0].offset == 0, ret.words@[0].fin,
     {
         Self::from_vec(to_vec(source))
     }
@@ -423,10 +495,10 @@ impl TextOwn {
     pub fn normalize(self, lang: &mut Lang) -> (ret: Self)
         // C01: "Normalization should always be the first step" — the panic is an obligation on the caller
         requires self.words@.len() <= 1, old(lang).wf(), self.aligned(),
-            self.words@.len() == 1 ==> self.words@[0].slice == (0usize, self.chars@.len() as usize) && self.words@[0].offset == 0,
+            self.words@.len() == 1 ==> self.words@[0].slice.0 == 0 && self.words@[0].slice.1 == self.chars@.len() && self.words@[0].offset == 0,
         ensures final(lang).reduce_map == old(lang).reduce_map, final(lang).compose_map == old(lang).compose_map, final(lang).pos_map == old(lang).pos_map, final(lang).char_map == old(lang).char_map,
             ret.aligned(), ret.words@.len() == self.words@.len(), ret.classes@ == self.classes@,
-            ret.words@.len() == 1 ==> ret.words@[0].slice == (0usize, ret.chars@.len() as usize) && ret.words@[0].offset == 0 && ret.words@[0].fin == self.words@[0].fin,
+            ret.words@.len() == 1 ==> ret.words@[0].slice.0 == 0 && ret.words@[0].slice.1 == ret.chars@.len() && ret.words@[0].offset == 0 && ret.words@[0].fin == self.words@[0].fin,
     {
         let mut __self = self;
         if __self.words.len() == 0 {
@@ -451,11 +523,18 @@ impl TextOwn {
         requires ws_in(self.words@, self.chars@.len() as int), ws_ordered(self.words@), self.aligned(),
             forall|k: int| 0 <= k < self.words@.len() ==> (#[trigger] self.words@[k]).offset + (self.words@[k].slice.1 - self.words@[k].slice.0) <= usize::MAX,
         ensures ret.struct_ok(), ret.source@ == self.source@, ret.chars@ == self.chars@, ret.classes@ == self.classes@,
+            // the pipeline case: one word spanning the whole text, split on whitespace / control / punctuation
+            self.words@.len() == 1 && self.words@[0].slice.0 == 0 && self.words@[0].slice.1 == self.chars@.len() && pattern@ == split_pat() ==> {
+                &&& ws_no_sep(ret.words@, ret.chars@) && gap_sep(ret.words@, ret.chars@)
+                &&& (self.words@[0].fin ==> ws_fin_record(ret.words@)) && (!self.words@[0].fin ==> ws_fin_query(ret.words@, ret.chars@.len() as int))
+            },
     {
         let mut __self = self;
         let mut words = Vec::with_capacity(__self.words.len());
         let ghost parents = __self.words@;
         let ghost n = __self.chars@.len() as int;
+        let ghost chars0 = __self.chars@;
+        let ghost pipeline = parents.len() == 1 && parents[0].slice.0 == 0 && parents[0].slice.1 == n && pattern@ == split_pat();
         let __end0 = __self.words.len();
         for __i0 in 0..__end0
             invariant __end0 == parents.len(), __self.words@ == parents, __self.chars@.len() == n, ws_in(parents, n), ws_ordered(parents),
@@ -463,6 +542,8 @@ impl TextOwn {
                 __self.source@ == self.source@, __self.chars@ == self.chars@, __self.classes@ == self.classes@,
                 ws_in(words@, n), ws_ordered(words@), ws_nonempty(words@),
                 forall|j: int| 0 <= j < words@.len() ==> (#[trigger] words@[j]).slice.1 <= (if __i0 < parents.len() { parents[__i0 as int].slice.0 as int } else { n }),
+                pipeline ==> (__i0 == 0 ==> words@.len() == 0) && (__i0 == 1 ==> ws_no_sep(words@, chars0) && gap_sep(words@, chars0) && (forall|j: int| 0 <= j < words@.len() ==> (#[trigger] words@[j]).fin == (parents[0].fin || words@[j].slice.1 < n))),
+                chars0 == __self.chars@, pipeline == (parents.len() == 1 && parents[0].slice.0 == 0 && parents[0].slice.1 == n && pattern@ == split_pat()),
         {
             let word = &__self.words[__i0];
             let mut __it1 = WordSplit::new(word, &__self.chars, pattern, lang);
@@ -471,14 +552,40 @@ impl TextOwn {
                     ws_in(words@, n), ws_ordered(words@), ws_nonempty(words@),
                     forall|j: int| 0 <= j < words@.len() ==> (#[trigger] words@[j]).slice.1 <= word.slice.0 + __it1.char_offset,
                     word.slice.0 + __it1.char_offset <= word.slice.1,
-                ensures forall|j: int| 0 <= j < words@.len() ==> (#[trigger] words@[j]).slice.1 <= word.slice.1,
+                    chars0 == __self.chars@, __it1.pattern@ == pattern@, __it1.lang == lang, pipeline == (parents.len() == 1 && parents[0].slice.0 == 0 && parents[0].slice.1 == n && pattern@ == split_pat()),
+                    pipeline ==> ws_no_sep(words@, chars0) && (forall|t: int| 0 <= t < __it1.char_offset && !covered(words@, t) ==> is_sep(#[trigger] chars0[t]))
+                        && (forall|j: int| 0 <= j < words@.len() ==> (#[trigger] words@[j]).fin == (parents[0].fin || words@[j].slice.1 < n)),
+                ensures pipeline ==> ws_no_sep(words@, chars0) && gap_sep(words@, chars0) && (forall|j: int| 0 <= j < words@.len() ==> (#[trigger] words@[j]).fin == (parents[0].fin || words@[j].slice.1 < n)),
+                    forall|j: int| 0 <= j < words@.len() ==> (#[trigger] words@[j]).slice.1 <= word.slice.1,
                 decreases word.slice.1 - word.slice.0 - __it1.char_offset,
             {
+                let ghost o0 = __it1.char_offset as int;
+                let ghost w0 = words@;
                 match __it1.next() {
                     Some(splitted) => {
                         words.push(splitted);
+                        proof {
+                            if pipeline {
+                                let s = splitted;
+                                assert(__i0 == 0 && word.slice.0 == 0 && word.slice.1 == n && *word == parents[0]);
+                                assert forall|t: int| o0 <= t < s.slice.0 implies is_sep(#[trigger] chars0[t]) by { lemma_pm_split(pattern, lang, chars0[t]); assert(pm(__it1.pattern, __it1.lang, __it1.chars@[t])); }
+                                assert forall|t: int| s.slice.0 <= t < s.slice.1 implies !is_sep(#[trigger] chars0[t]) by { lemma_pm_split(pattern, lang, chars0[t]); assert(!pm(__it1.pattern, __it1.lang, __it1.chars@[t])); }
+                                assert forall|t: int| covered(w0, t) implies covered(words@, t) by { let k = choose|k: int| 0 <= k < w0.len() && (#[trigger] w0[k]).slice.0 <= t < w0[k].slice.1; assert(words@[k] == w0[k]); }
+                                assert forall|t: int| s.slice.0 <= t < s.slice.1 implies covered(words@, t) by { assert(words@[w0.len() as int] == s); }
+                                assert forall|k: int, t: int| 0 <= k < words@.len() && (#[trigger] words@[k]).slice.0 <= t < words@[k].slice.1 implies !is_sep(#[trigger] chars0[t]) by { if k < w0.len() { assert(words@[k] == w0[k]); } }
+                                assert forall|j: int| 0 <= j < words@.len() implies (#[trigger] words@[j]).fin == (parents[0].fin || words@[j].slice.1 < n) by { if j < w0.len() { assert(words@[j] == w0[j]); } }
+                            }
+                        }
                     }
                     None => {
+                        proof {
+                            if pipeline {
+                                assert(__i0 == 0 && word.slice.0 == 0 && word.slice.1 == n && __it1.word.slice.0 == 0 && __it1.word.slice.1 == n);
+                                assert(__it1.chars@ == chars0);
+                                assert(forall|t: int| __it1.word.slice.0 + o0 <= t < __it1.word.slice.1 ==> pm(__it1.pattern, __it1.lang, #[trigger] __it1.chars@[t]));
+                                assert forall|t: int| o0 <= t < n implies is_sep(#[trigger] chars0[t]) by { lemma_pm_split(pattern, lang, chars0[t]); assert(__it1.word.slice.0 + o0 <= t < __it1.word.slice.1); assert(pm(__it1.pattern, __it1.lang, __it1.chars@[t])); assert(pm(pattern, lang, chars0[t])); }
+                            }
+                        }
                         break;
                     }
                 }
@@ -494,6 +601,7 @@ impl TextOwn {
             let word = &mut __self.words[offset];
             word.offset = offset;
         }
+        proof { lemma_same_slices(__self.words@, before, chars0, n); }
         __self
     }
     pub fn strip(self, pattern: &[CharClass], lang: &Lang) -> (ret: Self)
